@@ -98,44 +98,68 @@ class Config:
 
     def make_args(self, eps=None, suffix=""):
         """eps: {argindex: {mask: prefix}}"""
-        out = []
-        for i, a in enumerate(self.args):
-            e = (eps or {}).get(i)
-            nm = "x%d%s" % (i, suffix)
-            if a.kind == "r":
-                out.append(sym_array(nm, a.shape, e))
-            elif a.kind == "c":
-                out.append(sym_array(nm, a.shape, e, complex_=True))
-            elif a.kind == "s":
-                out.append(sym(nm, e))
-            elif a.kind == "cs":
-                out.append(CS(sym(nm + "r", e), sym(nm + "i", e)))
-            else:
-                out.append(a.value)
-        return out
+        return [_build_sym(a, "x%d%s" % (i, suffix), (eps or {}).get(i)) for i, a in enumerate(self.args)]
 
     def float_args(self, env):
-        out = []
-        for i, a in enumerate(self.args):
-            nm = "x%d" % i
-            if a.kind == "r":
-                arr = onp.empty(a.shape, dtype=float)
-                for idx in onp.ndindex(*a.shape):
-                    arr[idx] = env[nm + "_" + "_".join(map(str, idx))] if idx else env[nm]
-                out.append(arr)
-            elif a.kind == "c":
-                arr = onp.empty(a.shape, dtype=complex)
-                for idx in onp.ndindex(*a.shape):
-                    s = nm + "_" + "_".join(map(str, idx)) if idx else nm
-                    arr[idx] = complex(env[s + "r"], env[s + "i"])
-                out.append(arr)
-            elif a.kind == "s":
-                out.append(float(env[nm]))
-            elif a.kind == "cs":
-                out.append(complex(env[nm + "r"], env[nm + "i"]))
-            else:
-                out.append(a.value)
-        return out
+        return [_build_float(a, "x%d" % i, env) for i, a in enumerate(self.args)]
+
+    def float_dir(self, k, env, prefix="d"):
+        """float structure of argument k filled from the variables prefix+name (missing -> 0)"""
+        denv = _ZeroDefault({n[len(prefix):]: v for n, v in env.items() if n.startswith(prefix + "x%d" % k)})
+        return _build_float(self.args[k], "x%d" % k, denv)
+
+
+class _ZeroDefault(dict):
+    def __missing__(self, k):
+        return 0.0
+
+
+def _build_sym(a, nm, e):
+    if isinstance(a, dict):
+        return {k: _build_sym(v, "%sk%s" % (nm, k), e) for k, v in a.items()}
+    if isinstance(a, (tuple, list)):
+        return type(a)(_build_sym(v, "%sp%d" % (nm, j), e) for j, v in enumerate(a))
+    if a.kind == "r":
+        return sym_array(nm, a.shape, e)
+    if a.kind == "c":
+        return sym_array(nm, a.shape, e, complex_=True)
+    if a.kind == "s":
+        return sym(nm, e)
+    if a.kind == "cs":
+        return CS(sym(nm + "r", e), sym(nm + "i", e))
+    return a.value
+
+
+def _build_float(a, nm, env):
+    if isinstance(a, dict):
+        return {k: _build_float(v, "%sk%s" % (nm, k), env) for k, v in a.items()}
+    if isinstance(a, (tuple, list)):
+        return type(a)(_build_float(v, "%sp%d" % (nm, j), env) for j, v in enumerate(a))
+    if a.kind == "r":
+        arr = onp.empty(a.shape, dtype=float)
+        for idx in onp.ndindex(*a.shape):
+            arr[idx] = env[nm + "_" + "_".join(map(str, idx))] if idx else env[nm]
+        return arr
+    if a.kind == "c":
+        arr = onp.empty(a.shape, dtype=complex)
+        for idx in onp.ndindex(*a.shape):
+            s_ = nm + "_" + "_".join(map(str, idx)) if idx else nm
+            arr[idx] = complex(env[s_ + "r"], env[s_ + "i"])
+        return arr
+    if a.kind == "s":
+        return float(env[nm])
+    if a.kind == "cs":
+        return complex(env[nm + "r"], env[nm + "i"])
+    return a.value
+
+
+def add_scaled(x, d, t):
+    """x + t*d on nested float structures"""
+    if isinstance(x, dict):
+        return {k: add_scaled(x[k], d[k], t) for k in x}
+    if isinstance(x, (tuple, list)):
+        return type(x)(add_scaled(a, b, t) for a, b in zip(x, d))
+    return x + t * d
 
 
 def subst(args, k, x):
